@@ -1642,7 +1642,7 @@ class ReturnAnnotation(Base):
 # MAY_REJECT: the DSL may refuse these designs at elaboration (a pymtl3.dsl.errors exception); if it accepts one, the
 # simulation has to follow the reference under every schedule.
 MAY_REJECT = ("FFVarBit", "FFVarSlice", "FuncCombWriteInFF", "FFAliasWrite", "AliasAssignWrite", "AliasZip", "AliasNestedLoop",
-              "AliasBranch", "AliasComponent", "AliasRebind", "AliasReversed", "AliasAssignFF", "AliasSliceWrite")
+              "AliasBranch", "AliasComponent", "AliasRebind", "AliasReversed", "AliasAssignFF", "AliasSliceWrite", "AliasMoreForms", "AliasMoreFormsFF", "FuncParameterWrite")
 # designs whose SIMULATION is wrong on the unchanged tree (known findings of C01): not subjects of the translation checks
 SIM_KNOWN_WRONG = ()
 
@@ -2366,6 +2366,154 @@ class LoopVarCompare(Base):
       for i in range(4):
         for j in range(i):
           s.p @= s.p + s.b
+
+
+@design(lambda st, a, b, sel, en, reset: (None, {"o": ((a + 1) & M8) if en else 3, "p": (b + 7) & M8}))
+class LambdaNameStartsWithDef(Base):
+  """//= lambda whose text contains identifiers that start with 'def' after a blank"""
+  def construct(s):
+    s.ports()
+    s.o = OutPort(Bits8)
+    s.p = OutPort(Bits8)
+    default_inc = Bits8(3)
+    defer = Bits8(7)
+    s.o //= lambda: s.a + 1 if s.en else default_inc
+    s.p //= lambda: s.b + defer
+
+
+@design(lambda st, a, b, sel, en, reset: (None, {"o": sel + 1}))
+class CallAsInnerIndex(Base):
+  """s.tbl[ idx() ].x: a function of the component used as an index that is followed by a field"""
+  def construct(s):
+    s.ports()
+    s.o = OutPort(Bits8)
+    s.k = Wire(Bits2)
+    s.tbl = [Wire(Pst) for _ in range(4)]
+
+    @s.func
+    def idx_caii():
+      return s.k
+
+    @update
+    def up_caii_rd():
+      s.o @= zext(s.tbl[idx_caii()].x, 8)
+
+    @update
+    def up_caii_k():
+      s.k @= s.sel
+
+    @update
+    def up_caii_tbl():
+      for i in range(4):
+        s.tbl[i].x @= i + 1
+        s.tbl[i].y @= 0
+
+
+@design(lambda st, a, b, sel, en, reset: (("r", b), {"o": (a + 2) & M8, "p": b}))
+class ClosureBoundName(Base):
+  """sub = s.sub = _AliasInc(); ... sub.out: parts of the component reached through a variable of construct()"""
+  def construct(s):
+    s.ports()
+    s.o = OutPort(Bits8)
+    s.p = OutPort(Bits8)
+    sub = s.sub = _AliasInc()
+    sub.in_ //= s.a
+    rs = s.rs = [Wire(Bits8)]
+    s.p //= s.rs[0]
+
+    @update
+    def up_cbn():
+      s.o @= sub.out + 1
+
+    @update_ff
+    def ff_cbn():
+      rs[0] <<= s.b
+
+
+@design(lambda st, a, b, sel, en, reset: (None, {"o": (2 * (a + 1)) & M8, "p": (2 * b) & M8, "q": (a + 1) & M8, "r": ((a if en else 0) + 2 * (0 if en else a)) & M8}))
+class AliasMoreForms(Base):
+  """comprehension variables, loops over a list display and over a slice of a list, a name bound by a conditional expression"""
+  def construct(s):
+    s.ports()
+    s.o = OutPort(Bits8)
+    s.p = OutPort(Bits8)
+    s.q = OutPort(Bits8)
+    s.r = OutPort(Bits8)
+    s.subs = [_AliasInc() for _ in range(2)]
+    for m in s.subs:
+      m.in_ //= s.a
+    s.w1 = Wire(Bits8)
+    s.w2 = Wire(Bits8)
+    s.w3 = Wire(Bits8)
+    s.w4 = Wire(Bits8)
+
+    @update
+    def up_amf_rd():
+      s.p @= s.w1 + s.w2
+      s.r @= s.w3 + s.w4 + s.w4
+
+    @update
+    def up_amf():
+      vals = [m.out for m in s.subs]
+      s.o @= vals[0] + vals[1]
+      for w in [s.w1, s.w2]:
+        w @= s.b
+      t = Bits8(0)
+      for m in s.subs[1:]:
+        t = t + m.out
+      s.q @= t
+      x = s.w3 if s.en else s.w4
+      y = s.w4 if s.en else s.w3
+      x @= s.a
+      y @= 0
+
+
+def _amff_ref(st, a, b, sel, en, reset):
+  regs = (a, (a + 1) & M8, (a + 2) & M8, b)
+  return regs, {"o": regs[0] ^ regs[1] ^ regs[2] ^ regs[3]}
+
+
+@design(_amff_ref)
+class AliasMoreFormsFF(Base):
+  """registers written through names bound by enumerate( xs, 1 ), list( xs ), an annotated assignment and a walrus"""
+  def construct(s):
+    s.ports()
+    s.o = OutPort(Bits8)
+    s.regs = [Wire(Bits8) for _ in range(4)]
+
+    @update_ff
+    def ff_amff():
+      for i, r in enumerate(s.regs[1:3], 1):
+        r <<= s.a + i
+      for r in list(s.regs[0:1]):
+        r <<= s.a
+      q: object = s.regs[3]
+      q <<= s.b
+
+    @update
+    def up_amff():
+      s.o @= s.regs[0] ^ s.regs[1] ^ s.regs[2] ^ s.regs[3]
+
+
+@design(lambda st, a, b, sel, en, reset: (None, {"o": (a + 2) & M8}))
+class FuncParameterWrite(Base):
+  """@s.func def assign( dst, v ): dst @= v -- a signal written through the parameter of a function"""
+  def construct(s):
+    s.ports()
+    s.o = OutPort(Bits8)
+    s.w = Wire(Bits8)
+
+    @s.func
+    def assign_fpw(dst, v):
+      dst @= v
+
+    @update
+    def up_fpw_rd():
+      s.o @= s.w + 1
+
+    @update
+    def up_fpw():
+      assign_fpw(s.w, s.a + 1)
 
 
 def sequences():
